@@ -376,6 +376,16 @@ impl MithrilCertificateVerifier {
     //@ spec ensures ret is Ok && ret->Ok_0 is None ==> genesis_ok(certificate),
     //@ spec         ret is Ok && ret->Ok_0 is Some ==> retrieved(certificate.previous_hash@, &ret->Ok_0->Some_0) && standard_link(certificate, &ret->Ok_0->Some_0),
     //@end
+    //@extract file=mithril-common/src/certificate_chain/certificate_verifier.rs fn=verify_certificate_chain within="pub trait CertificateVerifier"
+    //@ attr #[verifier::exec_allows_no_decreases_clause]
+    //@ rewrite /async fn/ => /fn/
+    //@ rewrite /\.await/ => //
+    //@ rewrite /StdResult<\(\)>/ => /Result<(), CertificateVerifierError>/
+    //@ rewrite /while let Some\(previous_certificate\) = (self\.verify_certificate\(&certificate\)\?) \{/ => /loop { let verif_next = \1; if verif_next.is_none() { proof { assert(genesis_ok(&certificate)); } break; } let previous_certificate = verif_next.unwrap();/
+    //@ spec ensures ret is Ok ==> exists|g: Certificate| genesis_ok(&g)
+    //@ loop 0 invariant true,
+    //@ loop 0 ensures genesis_ok(&certificate),
+    //@end
 }
 
 } // verus!
